@@ -55,6 +55,7 @@ func HarnessC04Step(a []int) {
 	conn.handleTunnelReq(req, &seq)
 	if !ready {
 		// the application starts reading only now, however late
+		verifSleep(int64(20 * conn.config.ResponseTimeout))
 		go reader()
 	}
 	alive := verifQuiesce()
@@ -150,6 +151,8 @@ func HarnessC04Stream(a []int) {
 		}
 	}
 	if late {
+		close(conn.done) // keep the heartbeat out of the picture while time passes
+		verifSleep(int64(20 * conn.config.ResponseTimeout))
 		go reader()
 	}
 	verifQuiesce()
@@ -164,7 +167,9 @@ func HarnessC04Stream(a []int) {
 		}
 		verifAssert("C04.stream.exactly_once", n == 1)
 	}
-	close(conn.done)
+	if !late {
+		close(conn.done)
+	}
 	err := <-finished
 	verifAssert("C04.stream.process_ends", err == nil)
 	verifCover("C04.stream.end")
